@@ -28,6 +28,23 @@ def user_repair(X, Xb, xl, xu):
     return X
 
 
+class StatefulRepair:
+    """user-supplied de_repair given to the constructor as a callable *object* with state: the pull towards the reference
+    vector weakens with the number of calls made so far (a checkpoint has to carry that number along)"""
+
+    def __init__(self):
+        self.calls = 0
+
+    def __call__(self, X, Xb, xl, xu, **kwargs):
+        self.calls += 1
+        w = 1.0 / (1.0 + self.calls)
+        XL = xl[None, :].repeat(len(X), axis=0)
+        XU = xu[None, :].repeat(len(X), axis=0)
+        bad = (X < XL) | (X > XU)
+        C = np.minimum(np.maximum(X, XL), XU)
+        return np.where(bad, (1 - w) * C + w * Xb, X)
+
+
 class UserCrowding(CrowdingDiversity):
     """user crowding metric: L1 distance to the centroid (extremes infinite)"""
 
